@@ -439,7 +439,10 @@ class Gauss:
             xis, etas, weights = Gauss._Triangle(nPg)  # type: ignore [assignment]
 
         elif elemType == ElemType.TRI10:
-            nPg = 6
+            if matrixType == MatrixType.rigi:
+                nPg = 6
+            else:
+                nPg = 12  # N N has degree 6 and 10 functions: 6 points give a singular mass matrix
             xis, etas, weights = Gauss._Triangle(nPg)  # type: ignore [assignment]
 
         elif elemType == ElemType.TRI15:
@@ -472,7 +475,10 @@ class Gauss:
             x, y, z, weights = Gauss._Tetrahedron(nPg)  # type: ignore [assignment]
 
         elif elemType == ElemType.TETRA10:
-            nPg = 4
+            if matrixType == MatrixType.rigi:
+                nPg = 4
+            else:
+                nPg = 15  # N N has degree 4 and 10 functions: 4 points give a singular mass matrix
             x, y, z, weights = Gauss._Tetrahedron(nPg)  # type: ignore [assignment]
 
         elif elemType == ElemType.HEXA8:
@@ -492,7 +498,7 @@ class Gauss:
             x, y, z, weights = Gauss._Prism(nPg)  # type: ignore [assignment]
 
         elif elemType == ElemType.PRISM15:
-            nPg = 6
+            nPg = 21  # 6 points cannot carry 15 functions: singular mass, spurious stiffness modes
             x, y, z, weights = Gauss._Prism(nPg)  # type: ignore [assignment]
 
         elif elemType == ElemType.PRISM18:
